@@ -27,7 +27,7 @@ deriving DecidableEq, Repr
 
 /-- Model failures. `error` = the Go code returns a non-nil error of that class carrying the given
     cause sentinels (ids of failing user callbacks / loaders reachable through errors.Is);
-    `unsupported` = outside the modelled fragment (floats, regexps, relative names …);
+    `unsupported` = outside the modelled fragment (floats, regexps …);
     `fuel` = template recursion deeper than the fuel (the self-recursion the properties exclude). -/
 inductive Err
   | error (cls : ErrClass) (causes : List Nat) (msg : String)
